@@ -738,6 +738,9 @@ func doRecover(caller *frame) value {
 		case string:
 			// The interpreter explicitly called panic().
 			return iface{caller.i.runtimeErrorString, p}
+		case rtError:
+			// a run-time error of the target program (nil dereference, index out of range, ...)
+			return iface{caller.i.runtimeErrorString, p.Error()}
 		default:
 			panic(fmt.Sprintf("unexpected panic type %T in target call to recover()", p))
 		}
